@@ -246,6 +246,9 @@ class History:
                 a = rchain.address_for_script(network, o['script'])
                 if a in self.known or a in ctx.own_addresses(upto=120, accounts=(0, 1, 2, 3)):
                     self.known.add(a)
+                    if a not in self.addr_acc:
+                        # change address created by the library: attribute it to its account through the reference
+                        self.addr_acc[a] = next((acc_ for acc_ in (0, 1, 2, 3) if a in ctx.own_addresses(upto=120, accounts=(acc_,))), 0)
                     self.E[(txid, n)] = o['value']
         elif new_b:
             self.viol(None, 'a transaction was broadcast although the wallet does not report it as pushed', new_b[-1]['txid'], None)
